@@ -502,8 +502,10 @@ def install(run, model, rule="C03.install", rule_guard="C03.new-guard", rule_doc
                 raise AnalysisError("%s: a call of %s whose `%s` argument cannot be read: %s" % (fi.qual, deco.name, deco.params[1] if len(deco.params) > 1 else "?", src_of(call, 60)))
             flag = strip_sites(flow.term(b[deco.params[1]], n))
             what = strip_sites(flow.term(b[deco.params[0]], n))
-            in_loop = any(isinstance(lp, (ast.For, ast.While)) and any(x is call for x in ast.walk(lp)) for lp in ast.walk(fi.node))
+            in_loop = any(isinstance(lp, (ast.For, ast.While, ast.ListComp, ast.SetComp, ast.DictComp, ast.GeneratorExp)) and any(x is call for x in ast.walk(lp)) for lp in ast.walk(fi.node))
             is_ctor = not in_loop
+            if is_ctor and not any(s_ == ("const", "'__init__'") for s_ in subterms(what)) and "init" not in src_of(b[deco.params[0]]).lower():
+                raise AnalysisError("%s: `%s` outside the loops over the members wraps something that cannot be read as the constructor (%s)" % (fi.qual, src_of(call, 60), show(what, 60)))
             n_kind += 1
             want = ("const", "True") if is_ctor else ("const", "False")
             run.check(flag == want, rule, "%s:%s" % (fi.qual, src_of(call, 70)), "the constructor gets the constructor form of the wrapper (checks after the call), methods and property accessors the method form (checks before and after)", "`%s` is wrapped with %s=%s: %s" % (src_of(b[deco.params[0]], 30), deco.params[1], show(flag, 20), "a method or property accessor wrapped in the constructor form is not checked before the call, and the marker of an object under construction is used for it" if not is_ctor else "the constructor wrapped in the method form has the invariants evaluated before __init__ has established them"), fi.loc(n), None, first_line(n.stmt))
